@@ -107,7 +107,8 @@ func message(s MsgSpec, run *Result) *sarama.ProducerMessage {
 	return &sarama.ProducerMessage{Topic: Topic, Partition: s.Partition, Value: sarama.StringEncoder(val), Metadata: &meta{id: s.ID, run: run}}
 }
 
-const closeBound = 6 * time.Second
+const closeBound = 3 * time.Second
+const gateBound = 150 * time.Millisecond
 const stepBound = 1500 * time.Millisecond
 
 // Run executes the scenario against the source tree the harness was built with.
@@ -205,7 +206,7 @@ func Run(sc *Scenario) *Result {
 			if st.Arg < len(obs.gates) {
 				select {
 				case <-obs.gates[st.Arg].reached:
-				case <-time.After(stepBound):
+				case <-time.After(gateBound):
 				}
 			}
 		case "release":
